@@ -54,7 +54,7 @@ class _lookup_assumed:
 
 @contract(f'{CP}:Compiler._unaryop')
 class unaryop_folding:
-    props = ['C09', 'C05']
+    props = ['C09', 'C05', 'C01']      # C01: the compiled node is the operator node of the statement (no rewriting that changes NULL behaviour)
     params = {'self': COMPILER, 'node': Rec('UnaryOp', attrs=dict(operand=Dyn()))}
     callees = {f'{CP}:Compiler._compile': Contract(f'{CP}:Compiler._compile', _compile_assumed, 'unary'),
                'beanquery.types:function_lookup': Contract('beanquery.types:function_lookup', _lookup_assumed, 'unary')}
@@ -141,7 +141,7 @@ def all_constant(operands):
 
 @contract(f'{CP}:Compiler._function', 'plain')
 class function_call:
-    props = ['C09', 'C05']
+    props = ['C09', 'C05', 'C01']
     params = {'self': COMPILER, 'node': Rec('Function', attrs=dict(fname=Str(['f', 'g']), operands=ListOf(Dyn(('obj',)), maxlen=2)))}
     requires = lambda node: node.fname not in ('coalesce', 'meta', 'entry_meta', 'any_meta')
     pure_callees = {f'{CP}:Compiler._compile': (compiled_of, ['CompilationError'])}
@@ -165,7 +165,7 @@ class function_call:
 
 @contract(f'{CP}:Compiler._function', 'coalesce')
 class function_coalesce:
-    props = ['C05', 'C04', 'C09']       # C09: coalesce is never folded (its value is decided per row by EvalCoalesce, NULL-aware and not truthiness-based)
+    props = ['C05', 'C04', 'C09', 'C01']       # C09: coalesce is never folded (its value is decided per row by EvalCoalesce, NULL-aware and not truthiness-based)
     params = {'self': COMPILER, 'node': Rec('Function', attrs=dict(fname=Str(['coalesce']), operands=ListOf(Dyn(('obj',)), maxlen=3)))}
     requires = lambda node: node.fname == 'coalesce'
     pure_callees = {f'{CP}:Compiler._compile': (compiled_of, ['CompilationError'])}
@@ -290,7 +290,7 @@ class subscript_access:
 # ---- binary operators: exact overload after type inference, folding of two constants -------------------------------------------------------------
 @contract(f'{CP}:Compiler._binaryop')
 class binaryop_overload_and_folding:
-    props = ['C09', 'C05', 'C04']
+    props = ['C09', 'C05', 'C04', 'C01']
     params = {'self': COMPILER, 'node': Rec('BinaryOp', attrs=dict(left=Dyn(('obj',)), right=Dyn(('obj',))))}
     globals = {'OPERATORS': Opaque('registry'), 'FUNCTIONS': Opaque('functions')}
     callees = dict(_callee_compile('binaryop'),
